@@ -15,7 +15,7 @@ from scipy.stats import kstest
 
 from checks import gmvlib
 from copsim import zoo
-from copsim.core import Ctx, outcome, outcome_class
+from copsim.core import Ctx, derive_seed, outcome, outcome_class
 from copsim.seams import FailingMarginal, RngRecorder, sterile
 
 PROPERTY = 'C05'
@@ -128,7 +128,9 @@ def _gen_gmv(rng):
                                         mode=None)
                 if cols['c%d' % j]['form'] == 'wrap' and cols['c%d' % j]['mode'] == 'nancdf':
                     cols['c%d' % j]['mode'] = 'always'
-        if len(cols) < d - 1:
+        if d <= 3 and table['n'] <= 120 and derive_seed('emptycfg', table['seed']) % 6 == 0:
+            cols = {}                   # an empty mapping: every column gets the default
+        elif len(cols) < d - 1:
             for j in range(d):
                 cols.setdefault('c%d' % j, _cand(rng, 'gaussian', 'C%d' % j, wrap_p=0.0))
                 if len(cols) >= d - 1:
@@ -494,6 +496,18 @@ def _run_gmv(ctx, run):
                 if nat[0] != 'ok':
                     ctx.probes['configured_family_cannot_fit_naturally'] += 1
                     exp = ('gaussian',)
+        if exp[0] == 'default':
+            # "the default for unnamed columns": what a fresh default Univariate selects on
+            # this column alone
+            from copulas.univariate import Univariate
+            with sterile(run['state']):
+                dref = Univariate()
+                dfit = outcome(dref.fit, df[col])
+            if dfit[0] == 'ok' and getattr(dref, '_instance', None) is not None:
+                exp = ('type', type(dref._instance).__name__)
+                ctx.probes['unnamed_column_compared_with_default_selection'] += 1
+            else:
+                exp = ('member', {zoo.short(v) for v in gmvlib.FAM.values()})
         c2 = dict(cond, column=j, expected=str(exp))
         if exp[0] == 'type' and tname != exp[1]:
             ctx.violate('c_column_modelled_by_configured_distribution', SUBJ_GMV,
@@ -588,7 +602,7 @@ def _expected_type(cfg, col, j, protos):
     if cfg['form'] == 'dict':
         c = cfg['cols'].get(str(col))
         if c is None:
-            return ('member', {zoo.short(v) for v in gmvlib.FAM.values()})
+            return ('default',)
         return of_cand(c, 1)
     # selecting prototype: a member of its candidate set, or the Gaussian fallback if the
     # selection cannot produce a fitted model (depends on shared counters across columns)
